@@ -50,13 +50,14 @@ theorem C06_prepare_only_nonfatal {a a' : AppState S} {r : PrepReq} {items : Lis
   rw [hitems]
   exact List.mem_append_right _ (List.mem_map.mpr ⟨e, he, rfl⟩)
 
-/-- **Prepare then process accepts** (partial — the provisos are forced by the unchanged code, see
-the two counterexamples below). Any node `v` on the same committed state that cannot skip execution
-accepts the proposal, and so does the proposer itself, provided that (F12) the extended commit
-info fitted into `max_tx_bytes` (the proposal does not carry the empty fallback item), (F11) every included transaction is constructible against the
-block-start state, and: vote-extension enablement does not depend on uncommitted writes,
-`pre_execute_transactions` depends on the block data only, the proposer's own extended commit info
-validates, and `post_execute_transactions` succeeds. -/
+/-- **Prepare then process accepts** (partial — the remaining proviso is forced by the unchanged
+code, see the F11 counterexample below). Any node `v` on the same committed state that cannot skip
+execution accepts the proposal, and so does the proposer itself, provided that (F11) every
+included transaction is constructible against the block-start state, and: vote-extension
+enablement does not depend on uncommitted writes, `pre_execute_transactions` depends on the block
+data only, the proposer's own extended commit info validates, and `post_execute_transactions`
+succeeds. (The former F12 proviso — the extended commit info fits into `max_tx_bytes` — is no
+longer needed since `fix:` commit 259c046: the fallback item is well-formed.) -/
 theorem C06_prepare_then_process_accepts_partial
     {a a1 : AppState S} {r : PrepReq} {items : List Item} {σ : S} {hash : Nat}
     (hprep : stepPrepare p a r = (a1, .prepared items)) (hσ : a.committed = σ)
@@ -64,7 +65,6 @@ theorem C06_prepare_then_process_accepts_partial
     (hck : v.exec.checkPrepared (r.proposed items hash).fp = (ex1, false))
     (hi64 : r.maxTxBytes ≤ 2 ^ 63 - 1)
     (hve : ∀ s s', p.veEnabled s r.height = p.veEnabled s' r.height)
-    (hfit : ∀ bid len wf, Item.eci bid len wf ∈ items → wf = true)
     (hpre : p.pre σ (r.proposed items hash) = p.pre σ (r.asBlock []))
     (hvalid : p.veValid σ (r.proposed items hash) = true)
     (hcons : ∀ s1, p.pre σ (r.asBlock []) = .ok s1 → ∀ t, Item.tx t ∈ items → p.constructible s1 t = true)
@@ -72,8 +72,8 @@ theorem C06_prepare_then_process_accepts_partial
         ∃ s'' aux, p.post a1.work (r.proposed items hash) ex = .ok (s'', aux)) :
     (stepProcess p v (r.proposed items hash)).2 = .accept ∧
     (stepProcess p a1 (r.proposed items hash)).2 = .accept :=
-  ⟨prepare_then_process_accepts p hprep hσ v hvc hvw hck hi64 hve hfit hpre hvalid hcons hpost,
-   prepare_then_own_process_accepts p hprep hσ hve hfit hpost⟩
+  ⟨prepare_then_process_accepts p hprep hσ v hvc hvw hck hi64 hve hpre hvalid hcons hpost,
+   prepare_then_own_process_accepts p hprep hσ hve hpost⟩
 
 /-- **Acceptance is sound.** A node that cannot skip execution accepts a proposal only if: the data
 items are in the required order; all further items are transactions constructible at block start
@@ -152,15 +152,20 @@ theorem C06_prepare_process_disagree_counterexample :
   decide
 
 open Astria.Abci.Examples in
-/-- **Counterexample (F12), proved on the as-is model and reproduced on the real code**
-(third session of the corpus): with `max_tx_bytes` = 100 the 463-byte extended commit info does
-not fit, `prepare_proposal` substitutes the empty item, and that proposal is rejected with a parse
-error by every other node and by the proposer itself. -/
+/-- **Counterexample (F12) about the pinned code, fixed by `fix:` commit 259c046** (reproduced on
+the pinned tree by the third session of `corpus/abci.ops`). With `max_tx_bytes` = 100 the 463-byte
+extended commit info does not fit; the original `prepare_proposal` (`stepPrepareOriginal`)
+substituted `DataItem::ExtendedCommitInfo(empty bytes)`, and that proposal was rejected with a
+parse error by every other node and by the proposer itself. The repaired `prepare_proposal`
+(`stepPrepare`) proposes the well-formed empty value and both accept. -/
 theorem C06_eci_fallback_counterexample :
-    prepared? (stepPrepare f12 (AppState.init ()) f12Req).2 = some f12Items ∧
+    prepared? (stepPrepareOriginal f12 (AppState.init ()) f12Req).2 = some f12Items ∧
     rejected? (stepProcess f12 (AppState.init ()) (f12Req.proposed f12Items 1)).2 = some .parse ∧
-    rejected? (stepProcess f12 (stepPrepare f12 (AppState.init ()) f12Req).1 (f12Req.proposed f12Items 1)).2
-      = some .parse := by
+    rejected? (stepProcess f12 (stepPrepareOriginal f12 (AppState.init ()) f12Req).1 (f12Req.proposed f12Items 1)).2
+      = some .parse ∧
+    prepared? (stepPrepare f12 (AppState.init ()) f12Req).2 = some f12ItemsFixed ∧
+    isAccept (stepProcess f12 (AppState.init ()) (f12Req.proposed f12ItemsFixed 1)).2 = true ∧
+    isAccept (stepProcess f12 (stepPrepare f12 (AppState.init ()) f12Req).1 (f12Req.proposed f12ItemsFixed 1)).2 = true := by
   decide
 
 /-! ### non-vacuity -/
